@@ -4,6 +4,8 @@ import H3.Spec.Framing
 import H3.Spec.Qpack
 import H3.Model.Iso
 import H3.Model.Qpack
+import H3.Model.Headers
+import H3.Spec.Headers
 /-! Driver engine `iso` (C07).  Spec half: the non-interference oracle computed from the scenario
     line.  Model half: the `H3.Iso` product machine run on the scenario (section "the model" below);
     the two halves share only the parsing helpers and the rendering of a decoded field list in the
@@ -14,9 +16,16 @@ import H3.Model.Qpack
     field sections decoded by the RFC 9204 specification `H3.Spec.Qpack.specDecode`), FIN / RESET /
     STOP_SENDING, and the calls the application makes.  A request is *faulted* when the peer resets it
     (any code, any byte offset of an otherwise valid message), asks to stop sending and a write comes
-    after that, delivers a validly encoded but malformed head or trailer section (upper-case field
-    name, RFC 9114 §4.2), a head or trailer section over the limit, or ends the stream before any
-    HEADERS (bare FIN, or FIN behind frames of unknown type).  Oracle: a healthy request delivers
+    after that, delivers a validly encoded but malformed head or trailer section (one that C12's
+    well-formedness oracle `H3.Spec.Headers.WellFormed{Request,Response,Trailers}` refuses: upper-case /
+    empty / non-token field name, control byte in a value, undefined pseudo-header field or one of the
+    other kind of message, `:method` / `:status` missing or with an illegal value, no authority or a
+    `Host` that contradicts it, any pseudo-header field in trailers; RFC 9114 §4.2, §4.3), a head or
+    trailer section over the limit, or ends the stream before any
+    HEADERS (bare FIN, or FIN behind frames of unknown type).  A RESET may stand anywhere up to and at
+    the end of the complete message (no FIN: the reader meets it when it asks for more); a FIN behind a
+    RESET is ignored (QUIC: the stream is in "Reset Recvd"); a RESET behind the FIN may be ignored (all
+    data was received: "Data Recvd", the SimQuic behaviour) or reported: both answers are accepted.  Oracle: a healthy request delivers
     exactly its own head, its own body bytes in order, its own trailers, every call completes
     normally and h3 writes exactly what the application submitted on it; a faulted request reports
     only stream-level errors of the kind that fits the fault (`q<sid>:E[kinds]:conn=0`, nothing is
@@ -62,8 +71,9 @@ def renderHdrs (fs : List Fld) : String :=
   let sorted := reg.foldl (fun acc f => insertFld f acc) []
   if sorted.isEmpty then "-" else ";".intercalate (sorted.map fun f => strOf f.1 ++ "=" ++ toHex f.2)
 
+/-- the value of a pseudo-header field: a later one overwrites an earlier one (`Header::try_from`) -/
 def fieldOf (fs : List Fld) (name : String) : String :=
-  match fs.find? (fun f => f.1 == bytesOf name) with
+  match fs.reverse.find? (fun f => f.1 == bytesOf name) with
   | some f => strOf f.2
   | none => ""
 
@@ -120,6 +130,8 @@ structure Strm where
   rx : List Nat := []
   fin : Bool := false
   reset : Option Nat := none
+  /-- a RESET that stands behind the FIN in the line -/
+  resetAfterFin : Option Nat := none
   /-- code of the peer's STOP_SENDING and where in the line it stands -/
   stop : Option (Nat × Nat) := none
   calls : List SOp := []
@@ -162,13 +174,18 @@ def specOp (server : Bool) (st : SpecSt) (x : Nat × String) : SpecSt :=
     | none => { st with bad := true }
   | 'f' :: rest =>
     match (String.ofList rest).toNat? with
-    | some sid => st.upd sid (fun s => { s with fin := true, bad := s.bad || s.fin || s.reset.isSome })
+    | some sid =>
+      -- a FIN behind a RESET changes nothing (RFC 9000 §3.2: "Reset Recvd", further STREAM frames are discarded)
+      st.upd sid (fun s => if s.reset.isSome then { s with bad := s.bad || s.fin } else { s with fin := true, bad := s.bad || s.fin })
     | none => { st with bad := true }
   | 'r' :: rest =>
     match numPrefix (String.ofList rest) with
     | some (sid, r) =>
       match ((r.drop 1).toString).toNat? with
-      | some c => st.upd sid (fun s => { s with reset := some c, bad := s.bad || s.fin || s.reset.isSome })
+      | some c =>
+        st.upd sid (fun s =>
+          if s.fin then { s with resetAfterFin := some c, bad := s.bad || s.reset.isSome || s.resetAfterFin.isSome }
+          else { s with reset := some c, bad := s.bad || s.reset.isSome })
       | none => { st with bad := true }
     | none => { st with bad := true }
   | 'x' :: rest =>
@@ -226,13 +243,52 @@ def inVocabulary (pos : Pos) (fs : List Fld) : Bool :=
     | _, _ => false
   regOk && ctlOk
 
+/-- host characters the oracle knows to be a legal authority: letters, digits, `.`, `-` -/
+def hostChars (v : List Nat) : Bool :=
+  !v.isEmpty && v.all (fun c => decide ((97 ≤ c ∧ c ≤ 122) ∨ (65 ≤ c ∧ c ≤ 90) ∨ (48 ≤ c ∧ c ≤ 57) ∨ c = 45 ∨ c = 46))
+def pathChars (v : List Nat) : Bool :=
+  v.head? == some 47 && v.all (fun c => decide ((97 ≤ c ∧ c ≤ 122) ∨ (65 ≤ c ∧ c ≤ 90) ∨ (48 ≤ c ∧ c ≤ 57) ∨ c = 45 ∨ c = 46 ∨ c = 47))
+
+/-- The values of `:scheme`, `:authority`, `:path` and `Host` are the subject of the `http` crate's parsers, abstract
+    in C12 (`H3.Headers.Http`).  The oracle of C07 judges a section only when every such value is one on which all
+    readings agree: scheme `https`, an authority / `Host` of letters, digits, `.` and `-`, a path of the same
+    characters and `/` beginning with `/`.  For those the instance below says "accepted"; other values: no opinion. -/
+def urlValuesKnown (fs : List Fld) : Bool :=
+  fs.all (fun f =>
+    if f.1 == H3.Headers.nScheme then f.2 == H3.Headers.sHttps
+    else if f.1 == H3.Headers.nAuthority || f.1 == H3.Headers.nHost then hostChars f.2
+    else if f.1 == H3.Headers.nPath then pathChars f.2
+    else true)
+
+def specHttp : H3.Headers.Http where
+  parseScheme v := if v == H3.Headers.sHttps then some v else none
+  parseAuthority v := if hostChars v then some v else none
+  parsePath v := if pathChars v then some v else none
+  uriBuild s a p := if a.isEmpty then none else some { scheme := s, authority := some a, path := p }
+
+/-- RFC 9114 §4.2 calls a message with connection-specific fields malformed; C12's oracle does not demand it and h3
+    does not look: no opinion -/
+def connSpecific : List String := ["connection", "keep-alive", "proxy-connection", "transfer-encoding", "upgrade", "te"]
+
+/-- C12's oracle (`H3.Spec.Headers`, written from RFC 9114 §4.2 / §4.3 and the property text of C12), by position -/
+def wellFormed (pos : Pos) (fs : List Fld) : Bool :=
+  match pos with
+  | .request => decide (H3.Spec.Headers.WellFormedRequest specHttp fs)
+  | .response => decide (H3.Spec.Headers.WellFormedResponse specHttp fs)
+  | .trailers => decide (H3.Spec.Headers.WellFormedTrailers fs)
+
+/-- over the limit (§4.2.2) / malformed = refused by C12's well-formedness oracle (only for sections whose URL
+    values the oracle knows) / `ok` = well formed and inside the vocabulary whose answers the oracle can
+    write down; everything else (undecodable, well formed but e.g. pseudo-header fields repeated or behind
+    regular ones — R-12: not demanded) gets no opinion -/
 def classifyBlock (pos : Pos) (mfs : Option Nat) (b : List Nat) : BlockClass :=
   match H3.Spec.Qpack.specDecode b with
   | .error _ => .undecodable
   | .ok fs =>
     if (match mfs with | some m => decide (H3.Spec.Qpack.size fs > m) | none => false) then .oversized
-    else if !inVocabulary pos fs then .undecodable
-    else if fs.any (fun f => hasUpper f.1) then .malformed
+    else if !urlValuesKnown fs then .undecodable
+    else if !wellFormed pos fs then .malformed
+    else if !inVocabulary pos fs || fs.any (fun f => hasUpper f.1) || fs.any (fun f => connSpecific.contains (strOf f.1)) then .undecodable
     else .ok fs
 
 /-- a message as RFC 9114 §4.1 frames it: U* H (U|D)* (H U*)?, read off the tokens of the framing specification -/
@@ -307,8 +363,8 @@ def expectedTx (server : Bool) (s : Strm) : Option (List Nat) :=
       else if c.name == "fi" then (if c.args.isEmpty then some tx else none)
       else some tx)) start
 
-/-- one request: the alternatives for its `E` token and its second token; `none` = no opinion on the line -/
-def specStream (server : Bool) (mfs wc : Option Nat) (s : Strm) : Option (List String × String) :=
+/-- one request: the alternatives `(E token, second token)`; `none` = no opinion on the line -/
+def specStream (server : Bool) (mfs wc : Option Nat) (s : Strm) : Option (List (String × String)) :=
   if s.bad then none else
   let headName := if server then "res" else "rr"
   let headPos : Pos := if server then .request else .response
@@ -320,7 +376,13 @@ def specStream (server : Bool) (mfs wc : Option Nat) (s : Strm) : Option (List S
   let sendsOk := sendOrderOk 0 (sends.map (·.name)) && (!server || sends.all (fun c => c.idx > headIdx)) &&
     (server || !sends.any (fun c => c.name == "sr"))
   if !patternOk || !sendsOk then none else
-  let fault (kinds : List String) : Option (List String × String) := some ([eToken s.sid kinds false], "*")
+  let fault (kinds : List String) : Option (List (String × String)) := some [(eToken s.sid kinds false, "*")]
+  -- a RESET behind the FIN (RFC 9000 §3.2): ignored when all data had been received ("Data Recvd"; SimQuic), or
+  -- reported ("Size Known" → "Reset Recvd"): next to the answer without it, the stream-level error with its code
+  let orLateReset (r : Option (List (String × String))) : Option (List (String × String)) :=
+    match s.resetAfterFin with
+    | none => r
+    | some c => r.map (· ++ [(eToken s.sid [s!"rterm:{c}"] false, "*")])
   match s.reset with
   | some c =>
     -- RESET with any code at any byte offset of an otherwise valid message
@@ -335,13 +397,22 @@ def specStream (server : Bool) (mfs wc : Option Nat) (s : Strm) : Option (List S
     match m.head with
     | none =>
       -- abandoned before its headers (RFC 9114 §4.1; client: §4.1.2, reading R-07)
-      if s.stop.isSome then none
+      if s.stop.isSome || s.resetAfterFin.isSome then none
       else fault [if server then "stream:H3_REQUEST_INCOMPLETE" else "stream:H3_MESSAGE_ERROR"]
     | some hb =>
       match classifyBlock headPos mfs hb with
       | .undecodable => none
-      | .oversized => if s.stop.isSome then none else fault ["toobig"]
-      | .malformed => if s.stop.isSome then none else fault ["stream:H3_MESSAGE_ERROR"]
+      | .oversized =>
+        match s.stop with
+        | none => if s.resetAfterFin.isSome then none else fault ["toobig"]
+        | some (c, _) =>
+          -- server: the 431 answer is a write of THIS request; when it meets the peer's STOP_SENDING the request
+          -- reports that (RemoteTerminate with the peer's code) instead of the size; either way a stream-level
+          -- error on this request only: no close, the driver goes on, the other requests complete
+          if server && s.resetAfterFin.isNone then
+            some [(eToken s.sid ["toobig"] false, "*"), (eToken s.sid [s!"rterm:{c}"] false, "*")]
+          else none
+      | .malformed => if s.stop.isSome || s.resetAfterFin.isSome then none else fault ["stream:H3_MESSAGE_ERROR"]
       | .ok hfs =>
         -- the trailers: `some (some t)` good, `some none` absent, `none` faulted (kinds) or undecodable (no kinds)
         let trailersClass : Option (Option (List Fld)) × List String :=
@@ -355,10 +426,10 @@ def specStream (server : Bool) (mfs wc : Option Nat) (s : Strm) : Option (List S
             | .undecodable => (none, [])
         match trailersClass with
         | (none, []) => none
-        | (none, kinds) => if s.stop.isSome then none else fault kinds
+        | (none, kinds) => if s.stop.isSome || s.resetAfterFin.isSome then none else fault kinds
         | (some tfs, _) =>
           -- the receive side is healthy; STOP_SENDING is a fault once a write meets it
-          let healthy : Option (List String × String) :=
+          let healthy : Option (List (String × String)) :=
             (expectedTx server s).map (fun tx =>
               let trs := match tfs with | some t => renderTrailers t | none => "none"
               let res := s.calls.map (fun c =>
@@ -367,11 +438,12 @@ def specStream (server : Bool) (mfs wc : Option Nat) (s : Strm) : Option (List S
                 else if c.name == "rb" then s!"rb=body:{toHex m.body}"
                 else if c.name == "rt" then s!"rt={trs}"
                 else s!"{c.name}=ok")
-              ([eToken s.sid [] false],
-               s!"q{s.sid}:{",".intercalate res};tx={toHex tx}" ++ (if s.calls.any (·.name == "fi") then ",fin" else "")))
+              [(eToken s.sid [] false,
+                s!"q{s.sid}:{",".intercalate res};tx={toHex tx}" ++ (if s.calls.any (·.name == "fi") then ",fin" else ""))])
           match s.stop with
-          | none => healthy
+          | none => orLateReset healthy
           | some (c, ix) =>
+            if s.resetAfterFin.isSome then none else
             let after := s.calls.any (fun k => isWriteName k.name && k.idx > ix)
             let before := s.calls.any (fun k => isWriteName k.name && k.idx < ix)
             -- a write posted earlier may still be waiting when the STOP_SENDING arrives: for credit (back-pressure), or
@@ -380,7 +452,7 @@ def specStream (server : Bool) (mfs wc : Option Nat) (s : Strm) : Option (List S
               s.calls.any (fun r => !isSendName r.name && r.idx < k.idx))
             if after then fault [s!"rterm:{c}"]
             else if before && (wc.isSome || queued) then
-              some ([eToken s.sid [] false, eToken s.sid [s!"rterm:{c}"] false], "*")
+              some [(eToken s.sid [] false, "*"), (eToken s.sid [s!"rterm:{c}"] false, "*")]
             else healthy
 
 /-- the specification's answer, computed from the line alone -/
@@ -395,7 +467,7 @@ def specOf (server : Bool) (cfg : String) (ops : List String) : String :=
   | some parts =>
     -- every combination of the alternatives
     let alts : List (List String) := parts.foldl (fun acc p =>
-      acc.flatMap (fun pre => p.1.map (fun e => pre ++ [e, p.2]))) [[]]
+      acc.flatMap (fun pre => p.map (fun e => pre ++ [e.1, e.2]))) [[]]
     " || ".intercalate (alts.map (fun toks => " ".intercalate (toks ++ ["closed=[]", "driver=ok"])))
 
 /-! ### the model: the scenario run through `H3.Iso`
@@ -405,15 +477,44 @@ task that executes its commands in order; a command whose call is `Pending` stay
 polled again when the next peer event for that stream arrives (bytes, FIN, RESET, STOP_SENDING, a
 credit grant); commands posted meanwhile wait in the task's mailbox.  Each poll is one
 `H3.Iso.step`; after every op the driver is polled (`H3.Iso.drive`).  The header oracle is the QPACK
-model (`H3.Qpack.recvSite`: limit, decoding errors) plus the one validity rule the generator's
-malformed sections break (upper-case letter in a field name, RFC 9114 §4.2); what the application
+model (`H3.Qpack.recvSite`: limit, decoding errors) followed by the header-validation model of C12
+(`H3.Headers.recvRequest` / `recvResponse` / `recvTrailers`: `Field::parse`, `Header::try_from`,
+`into_request_parts` / `into_response_parts` / `into_trailers`; refused ⇒ malformed); what the application
 submits is encoded by the encoder model (`H3.Qpack.sendSite`).  `rxhalt=1` (R-07): once a receive
 command has answered an error the task's later receive commands are not made. -/
+
+/-- The abstract `http` part of `H3.Headers` (C12 gets the real crate's verdicts on its case lines; the scenarios of
+    this engine carry none), instantiated for the values the scenarios use: a scheme is `https` or `http`; an
+    authority is a non-empty string of letters, digits, `.`, `-` with an optional `:<digits>`; a path begins
+    with `/` and consists of letters, digits, `/ . - _ ~ ? = &`; `Uri::from_parts`: a scheme needs a path, a path
+    beside an authority needs a scheme.  Other values are refused here (outside the scenarios). -/
+def modelHttp : H3.Headers.Http where
+  parseScheme v := if v == H3.Headers.sHttps || v == [104, 116, 116, 112] then some v else none
+  parseAuthority v :=
+    let host := v.takeWhile (· != 58)
+    let port := (v.dropWhile (· != 58)).drop 1
+    if !host.isEmpty && host.all (fun c => decide ((97 ≤ c ∧ c ≤ 122) ∨ (65 ≤ c ∧ c ≤ 90) ∨ (48 ≤ c ∧ c ≤ 57) ∨ c = 45 ∨ c = 46)) &&
+        port.all (fun c => decide (48 ≤ c ∧ c ≤ 57)) then some v else none
+  parsePath v :=
+    if v.head? == some 47 && v.all (fun c => decide ((97 ≤ c ∧ c ≤ 122) ∨ (65 ≤ c ∧ c ≤ 90) ∨ (48 ≤ c ∧ c ≤ 57) ∨
+        c = 45 ∨ c = 46 ∨ c = 47 ∨ c = 95 ∨ c = 126 ∨ c = 63 ∨ c = 61 ∨ c = 38)) then some v else none
+  uriBuild s a p :=
+    if a.isEmpty then none
+    else if s.isSome != p.isSome then none
+    else some { scheme := s, authority := some a, path := p }
+
+/-- does the code's header validation (`H3.Headers`: `Header::try_from` + `into_request_parts` /
+    `into_response_parts` / `into_trailers`, the model of C12) accept the decoded section at this site -/
+def siteAccepts (site : H3.Qpack.RecvSite) (fs : List (List Nat × List Nat)) : Bool :=
+  match site with
+  | .serverRequest => (match H3.Headers.recvRequest modelHttp fs with | .ok _ => true | _ => false)
+  | .clientResponse => (match H3.Headers.recvResponse modelHttp fs with | .ok _ => true | _ => false)
+  | .serverTrailers | .clientTrailers => (match H3.Headers.recvTrailers modelHttp fs with | .ok _ => true | _ => false)
 
 open H3.Iso in
 def hdrOracle (site : H3.Qpack.RecvSite) (mfs : Nat) (b : List Nat) : HClass :=
   match H3.Qpack.recvSite site mfs b with
-  | .fields fs => if fs.any (fun f => f.name.any (fun c => decide (65 ≤ c ∧ c ≤ 90))) then .malformed else .ok
+  | .fields fs => if siteAccepts site (fs.map (fun f => (f.name, f.value))) then .ok else .malformed
   | .tooBig _ _ _ => .tooBig
   | .connError _ => .qpack
 
